@@ -87,6 +87,32 @@ spec('own-sorter-sort-by', [(RS, '''    let sorted_index = self
     });'''), (RS, 'use itertools::Itertools;\n', '')])
 spec('own-rename-sorter', [(RS, 'fn sort_replacement(&self)', 'fn ensure_sorted(&self)'), (RS, 'self.sort_replacement();', 'self.ensure_sorted();')])
 
+spec('own-reset-helpers', [(RS, '''    self.replacements.push(Replacement::new(
+      start,
+      end,
+      content.into(),
+      name.map(|s| s.into()),
+      enforce,
+    ));
+    self.is_sorted.store(false, Ordering::SeqCst);
+  }''', '''    self.push_replacement(Replacement::new(
+      start,
+      end,
+      content.into(),
+      name.map(|s| s.into()),
+      enforce,
+    ));
+    self.invalidate_order();
+  }'''), (RS, '''  fn sorted_replacement(&self) -> Vec<&Replacement> {''', '''  fn push_replacement(&mut self, replacement: Replacement) {
+    self.replacements.push(replacement);
+  }
+
+  fn invalidate_order(&self) {
+    self.is_sorted.store(false, Ordering::SeqCst);
+  }
+
+  fn sorted_replacement(&self) -> Vec<&Replacement> {''')])
+
 os.makedirs(os.path.join(V, 'benign'), exist_ok=True)
 bad = 0
 for name, edits in SPECS:
